@@ -120,7 +120,9 @@ TrRunToCut ==
 
 TrCrash ==
   /\ br # <<>> /\ br[2] = 0 /\ run = 0
-  /\ pend # <<>> /\ Head(pend) = Cut.op
+  \* op = "end": the cut lies behind the last file operation of the call (inside the compaction that the call
+  \* runs on other files, which must not change the logical state)
+  /\ IF Cut.op = "end" THEN pend = <<>> ELSE pend # <<>> /\ Head(pend) = Cut.op
   /\ Crash(Cut.tear)
   /\ LoadObserved(Cut.lerr, Cut.lm, disk')
   /\ br' = <<br[1], 1>> /\ run' = -1
